@@ -1,0 +1,176 @@
+// Copyright 2026 Dolthub, Inc.
+//
+// Licensed under the Apache License, Version 2.0 (the "License");
+// you may not use this file except in compliance with the License.
+// You may obtain a copy of the License at
+//
+//     http://www.apache.org/licenses/LICENSE-2.0
+//
+// Unless required by applicable law or agreed to in writing, software
+// distributed under the License is distributed on an "AS IS" BASIS,
+// WITHOUT WARRANTIES OR CONDITIONS OF ANY KIND, either express or implied.
+// See the License for the specific language governing permissions and
+// limitations under the License.
+
+//go:build verif
+
+package message
+
+import (
+	"context"
+
+	flatbuffers "github.com/dolthub/flatbuffers/v23/go"
+
+	"github.com/dolthub/dolt/go/gen/fb/serial"
+	"github.com/dolthub/dolt/go/store/hash"
+)
+
+// Verification vocabulary (ghost code, compiled only with -tags verif). The
+// bodies are executable so that contracts can also be run concretely.
+
+func verif_old[T any](x T) T { return x }
+
+// verif_loopold(e) in a loop invariant: the value of e when the loop was entered (contracts only).
+func verif_loopold[T any](x T) T { return x }
+
+func verif_res[T any](i int) T { var z T; return z }
+
+func verif_implies(a, b bool) bool { return !a || b }
+
+func verif_forall(lo, hi int, f func(int) bool) bool {
+	for k := lo; k < hi; k++ {
+		if !f(k) {
+			return false
+		}
+	}
+	return true
+}
+
+func verif_exists(lo, hi int, f func(int) bool) bool {
+	for k := lo; k < hi; k++ {
+		if f(k) {
+			return true
+		}
+	}
+	return false
+}
+
+func verif_assert(b bool) {
+	if !b {
+		panic("verif_assert failed")
+	}
+}
+
+func verif_assume(b bool) {}
+
+// verif_sameslice(a, b): a and b are the same window of the same backing array (contracts only; the executable
+// body cannot tell two empty windows apart).
+func verif_sameslice[T any](a, b []T) bool {
+	return len(a) == len(b) && (len(a) == 0 || &a[0] == &b[0])
+}
+
+// verif_rangeidx stands for the number of completed iterations of the enclosing range loop (contracts only).
+func verif_rangeidx() int { return 0 }
+
+// verif_arg stands for the i-th argument of the call a call-site assertion is attached to (contracts only).
+func verif_arg[T any](i int) T { var z T; return z }
+
+// ---- ghost state of the node walkers (C09): the sequence of addresses reported to the callback
+
+var verif_ghost struct {
+	n     int                // number of callback invocations so far
+	rep   [1 << 16]hash.Hash // rep[k] is the address passed to the k-th invocation
+	arr   []byte             // the node's packed child address array
+	items []byte             // the item buffer that embedded addresses are read from
+	cnt   int                // number of embedded address offsets
+	level byte               // tree level
+}
+
+// verif_hash_at is the k-th 20-byte address of a packed address array.
+func verif_hash_at(b []byte, k int) hash.Hash {
+	return hash.New(b[hash.ByteLen*k : hash.ByteLen*k+hash.ByteLen])
+}
+
+// verif_hash_off is the address stored at byte offset o of an item buffer.
+func verif_hash_off(b []byte, o int) hash.Hash { return hash.New(b[o : o+hash.ByteLen]) }
+
+// verif_voff stands for the j-th entry of the node's address offset vector (uninterpreted).
+func verif_voff(j int) uint16 { return 0 }
+
+func verif_x_cb(ctx context.Context, addr hash.Hash) (err error) { return nil }
+
+func verif_x_InitAddressMapRoot(o *serial.AddressMap, buf []byte, offset flatbuffers.UOffsetT) (err error) {
+	return serial.InitAddressMapRoot(o, buf, offset)
+}
+
+func verif_x_AddressMap_AddressArrayBytes(m *serial.AddressMap) (b []byte) {
+	return m.AddressArrayBytes()
+}
+
+func verif_x_InitBlobRoot(o *serial.Blob, buf []byte, offset flatbuffers.UOffsetT) (err error) {
+	return serial.InitBlobRoot(o, buf, offset)
+}
+
+func verif_x_Blob_AddressArrayBytes(m *serial.Blob) (b []byte) { return m.AddressArrayBytes() }
+
+func verif_x_InitVectorIndexNodeRoot(o *serial.VectorIndexNode, buf []byte, offset flatbuffers.UOffsetT) (err error) {
+	return serial.InitVectorIndexNodeRoot(o, buf, offset)
+}
+
+func verif_x_VectorIndexNode_AddressArrayBytes(m *serial.VectorIndexNode) (b []byte) {
+	return m.AddressArrayBytes()
+}
+
+func verif_x_InitProllyTreeNodeRoot(o *serial.ProllyTreeNode, buf []byte, offset flatbuffers.UOffsetT) (err error) {
+	return serial.InitProllyTreeNodeRoot(o, buf, offset)
+}
+
+func verif_x_ProllyTreeNode_AddressArrayBytes(m *serial.ProllyTreeNode) (b []byte) {
+	return m.AddressArrayBytes()
+}
+
+func verif_x_ProllyTreeNode_ValueItemsBytes(m *serial.ProllyTreeNode) (b []byte) {
+	return m.ValueItemsBytes()
+}
+
+func verif_x_ProllyTreeNode_ValueAddressOffsetsLength(m *serial.ProllyTreeNode) (n int) {
+	return m.ValueAddressOffsetsLength()
+}
+
+func verif_x_ProllyTreeNode_ValueAddressOffsets(m *serial.ProllyTreeNode, j int) (o uint16) {
+	return m.ValueAddressOffsets(j)
+}
+
+func verif_x_InitMergeArtifactsRoot(o *serial.MergeArtifacts, buf []byte, offset flatbuffers.UOffsetT) (err error) {
+	return serial.InitMergeArtifactsRoot(o, buf, offset)
+}
+
+func verif_x_MergeArtifacts_AddressArrayBytes(m *serial.MergeArtifacts) (b []byte) {
+	return m.AddressArrayBytes()
+}
+
+func verif_x_MergeArtifacts_KeyItemsBytes(m *serial.MergeArtifacts) (b []byte) {
+	return m.KeyItemsBytes()
+}
+
+func verif_x_MergeArtifacts_KeyAddressOffsetsLength(m *serial.MergeArtifacts) (n int) {
+	return m.KeyAddressOffsetsLength()
+}
+
+func verif_x_MergeArtifacts_KeyAddressOffsets(m *serial.MergeArtifacts, j int) (o uint16) {
+	return m.KeyAddressOffsets(j)
+}
+
+func verif_x_TryGetRootAsCommitClosure(buf []byte, offset flatbuffers.UOffsetT) (m *serial.CommitClosure, err error) {
+	return serial.TryGetRootAsCommitClosure(buf, offset)
+}
+
+func verif_x_CommitClosure_AddressArrayBytes(m *serial.CommitClosure) (b []byte) {
+	return m.AddressArrayBytes()
+}
+
+func verif_x_CommitClosure_KeyItemsBytes(m *serial.CommitClosure) (b []byte) {
+	return m.KeyItemsBytes()
+}
+
+func verif_x_CommitClosure_TreeLevel(m *serial.CommitClosure) (l byte) { return m.TreeLevel() }
